@@ -2,6 +2,6 @@ SPECIFICATION SSpec
 CONSTANTS
   LenOf <- SLenOf
   BucketOf <- SBucketOf
-  ReflinkOK = FALSE
+  ReflinkOK <- SReflink
 POSTCONDITION Accepted
 CHECK_DEADLOCK FALSE
